@@ -6,6 +6,7 @@ delta in {0,1}; all interval lists (any number of intervals) over [1..UB] for th
 Oracle: Python sets of integer positions.  Hangs are caught by a per-call interval timer.
 """
 import itertools
+import os
 import signal
 import sys
 from functools import partial
@@ -336,7 +337,67 @@ def check_iso_profiles(args):
                                 bad.append(("set_profiles/" + kind, [feats, t, ex], prof,
                                             "feature %s outside=%s" % (f, outside)))
                                 break
+            # the same pair through the constructors that choose the comparator themselves: GeneInfo.from_models / from_model built
+            # with a matching tolerance (the pipeline always passes delta > 0) - the isoform profiles stay exact
+            try:
+                from src.gene_info import TranscriptModel, TranscriptModelType
+                tms = [TranscriptModel("chr1", "+", t, "g", list(ex), TranscriptModelType.known) for t, ex in isoforms.items()]
+                for dl in (0, 2):
+                    gis = [("from_models", GeneInfo.from_models(tms, delta=dl), ("t1", "t2"))]
+                    if iso1 == iso2:
+                        gis.append(("from_model", GeneInfo.from_model(tms[0], delta=dl), ("t1",)))
+                    for cname, gi, tids in gis:
+                        for kind, fpo in (("exon", gi.exon_profiles), ("intron", gi.intron_profiles)):
+                            for t in tids:
+                                tf = isoforms[t] if kind == "exon" else C.junctions_from_blocks(isoforms[t])
+                                exp = [1 if f in tf else 0 for f in fpo.features]
+                                got = [1 if x == 1 else 0 for x in fpo.profiles[t]]
+                                if got != exp:
+                                    bad.append(("GeneInfo.%s/%s-profile" % (cname, kind), [isoforms, t, dl], fpo.profiles[t],
+                                                "present exactly for the isoform's own features %s of %s" % (tf, fpo.features)))
+            except Exception as e:  # noqa
+                bad.append(("GeneInfo.from_models", [isoforms], "EXC " + repr(e), "no exception"))
     return n, nontriv, [(a, b, repr(c), repr(d)) for a, b, c, d in bad[:20]]
+
+
+def check_db_profiles(scratch):
+    """GeneInfo built from a gffutils database (the pipeline's constructor) with every matching tolerance of the presets: isoforms that
+       differ by 1-6 bases at one exon boundary (alternative donors/acceptors closer than delta) keep distinct, exact profiles"""
+    import gffutils
+    from vlib import syn
+    from src.gene_info import GeneInfo
+    import src.common as C
+    bad = []
+    n = 0
+    base = [[1001, 1200], [1601, 1800], [2201, 2400], [2801, 3000]]
+    for k, (bi, side) in enumerate(((1, 0), (1, 1), (2, 0), (0, 1), (3, 0))):
+        for sh in (1, 3, 4, 6, -3):
+            alt = [list(b) for b in base]
+            alt[bi][side] += sh
+            w = {"chroms": {"chr1": 5000}, "sites": [], "reads": [],
+                 "genes": [{"id": "G", "chr": "chr1", "strand": "+", "transcripts": [{"id": "ta", "exons": base}, {"id": "tb", "exons": alt}]}]}
+            tag = os.path.join(scratch, "c19db_%d_%d" % (k, sh))
+            db = gffutils.FeatureDB(syn.build_db(syn.write_gtf(w, tag + ".gtf"), tag + ".db"))
+            genes = list(db.features_of_type("gene"))
+            for dl in (0, 4, 6, 12):
+                n += 1
+                try:
+                    gi = GeneInfo(genes, db, delta=dl)
+                    for kind, fpo in (("exon", gi.exon_profiles), ("intron", gi.intron_profiles)):
+                        for t, ex in (("ta", base), ("tb", alt)):
+                            ex = [tuple(e) for e in ex]
+                            tf = ex if kind == "exon" else C.junctions_from_blocks(ex)
+                            exp = [1 if f in tf else 0 for f in fpo.features]
+                            got = [1 if x == 1 else 0 for x in fpo.profiles[t]]
+                            if got != exp:
+                                bad.append(("GeneInfo(db)/%s-profile" % kind, [base, alt, t, dl], repr(fpo.profiles[t]),
+                                            "present exactly for the isoform's own features %s of %s" % (tf, fpo.features)))
+                except Exception as e:  # noqa
+                    bad.append(("GeneInfo(db)", [base, alt, dl], "EXC " + repr(e), "no exception"))
+            for f in (tag + ".gtf", tag + ".db"):
+                if os.path.exists(f):
+                    os.remove(f)
+    return n, n, bad[:20]
 
 
 def check_read_profiles(args):
@@ -521,6 +582,7 @@ def run(ctx):
     plists = all_lists(U, 3)
     pidx = list(range(len(plists)))
     absorb(core.pmap(check_iso_profiles, [(plists, c) for c in core.chunks(pidx, core.NCPU * 4)]), "isoform profiles")
+    absorb([check_db_profiles(ctx.scratch)], "isoform profiles of database-built gene clusters")
     rl = all_lists(UP + 2, 3)
     kl = all_lists(UP + 2, 3, lo=2)
     kl = [l for l in kl if l[-1][1] <= UP + 1]
